@@ -129,7 +129,13 @@ def layout_case(seed, text=None):
     rnd = random.Random(seed)
     if text is None:
         prog = gen_struct.rprogram(rnd, maxdepth=rnd.choice([1, 2, 3, 4]))
-        text = '\n'.join(A.struct_text(prog))
+        lines0 = A.struct_text(prog)
+        if rnd.random() < 0.4:
+            # characters that str.splitlines() treats as line ends but the parser does not: only LF / CRLF end a line
+            odd = rnd.choice(['\x0c', '\x0b', '\x1c', '\x1d', '\x1e', '\x85', '\u2028', '\u2029', '\r'])
+            k = rnd.randint(0, len(lines0))
+            lines0.insert(k, rnd.choice([f"# a comment with {odd} inside", f"odd{rnd.randint(0, 9)} = 'a{odd}b'", f'probe(700, "x{odd}")']))
+        text = '\n'.join(lines0)
     lines = text.split('\n')
     names, new, chunked = rewrite(rnd, lines)
     c = json.loads(json.dumps(BASE))
